@@ -153,6 +153,12 @@ Section Trace.
     apply is_none_false in H. rewrite H. reflexivity.
   Qed.
 
+  Theorem evalT_complete_cached f (c : cache) n :
+    (isinput n = false -> c n = VNone ->
+       forall d, In d (deps n) -> In (n, d) (snd (evalT (S f) c n)))
+    /\ (isinput n = true \/ c n <> VNone -> snd (evalT f c n) = []).
+  Proof. split; [apply evalT_complete|apply evalT_cached]. Qed.
+
   (* ---------------------------------------------------------- build *)
   Definition btstep (s : state) (b' : nat -> bool) (acc : cache * rtrace) (m : nat) : cache * rtrace :=
     let '(c, t) := acc in
